@@ -286,6 +286,12 @@ func checkC05(p *ana.Prog, r *ana.Result) {
 				o.Rule = "C05.authenticated-fields"
 				o.Key = strings.Replace(o.Key, "C10.coverage", "C05.authenticated-fields", 1)
 				kept = append(kept, o)
+			} else if strings.Contains(o.Key, ").authenticate |") && strings.HasPrefix(o.Key, "C10.coverage") {
+				// "verify under the server-to-client key": authenticate succeeds only through the
+				// AEAD Open of the packet's own nonce/ciphertext over the recorded prefix
+				o.Rule = "C05.nts-verify"
+				o.Key = strings.Replace(o.Key, "C10.coverage", "C05.nts-verify", 1)
+				kept = append(kept, o)
 			}
 		}
 		r.Obls = kept
